@@ -6,7 +6,10 @@
    stage, width and replay invariants.
 2. R: TLC enumerates the stack-limit sweep (Type2GlyphSweep.cfg: for every operator form the encoder
    can emit, isolated runs whose single-operator encoding needs limit-2..limit+2 operands, with
-   first/middle/last segments of another family, with and without a width operand, 0..49 stems),
+   first/middle/last segments of another family, with and without a width operand, 0..49 stems;
+   single deltas of exactly 32767/32768/32769/63999/64000 as move, line, curve start/end) and the
+   width sweep (Type2GlyphWidths.cfg: fonts of 1..3 glyphs, all assignments of 0 / negative /
+   negative fractional / fractional widths),
    and TLC -simulate generates fonts (1..8 glyph descriptions each) from boundary deltas that
    make every operator form reachable (h/v zero patterns, flex-compatible pairs, runs across the
    48-operand limit, 0..96 stems, masks first / in the middle, equal / unequal / fractional
@@ -123,7 +126,7 @@ class Runner:
             f["id"] = self.next_id
             self.next_id += 1
         bad = []
-        chunk = 250
+        chunk = 250 if len(fonts) <= 500 or not self.ctx.quick() else 1300
         for s in range(0, len(fonts), chunk):
             part = fonts[s:s + chunk]
             self.k += 1
@@ -215,6 +218,14 @@ def _fonts(ctx, cfgname, n, label, subs=()):
                          % (label, res.violated, res.error_text[:1500]))
     if len(res.cases) < (1000 if n is None else n // 2):
         raise vlib.Infra("%s produced only %d fonts" % (label, len(res.cases)))
+    if n is None:      # an enumeration reaches the same font through several initial states
+        seen, uniq = set(), []
+        for c in res.cases:
+            k = json.dumps(c, sort_keys=True)
+            if k not in seen:
+                seen.add(k)
+                uniq.append(c)
+        return uniq
     return res.cases
 
 
@@ -247,7 +258,10 @@ def run(ctx):
     strata = [
         # enumerated, not sampled: operator form x run length around the 48-operand limit x variant x
         # stem plan x width operand present/absent (Type2GlyphSweep.cfg)
-        ("stack-limit sweep (enumerated)", "Type2GlyphSweep.cfg", (), "Type2Trace.cfg", None),
+        ("stack-limit and number-range sweep (enumerated)", "Type2GlyphSweep.cfg", (), "Type2Trace.cfg", None),
+        # enumerated: fonts of 1..3 outline-less glyphs, every assignment of boundary widths
+        # (0, negative, negative fractional, fractional) -- Type2GlyphWidths.cfg
+        ("width sweep (enumerated)", "Type2GlyphWidths.cfg", (), "Type2TraceFine.cfg", None),
         ("integer glyphs", "Type2GlyphGen.cfg", (), "Type2Trace.cfg", ctx.pick(220, 2500)),
         ("integer glyphs with corner-to-corner jumps", "Type2GlyphGen.cfg", [("FarJumps = FALSE", "FarJumps = TRUE")],
          "Type2Trace.cfg", ctx.pick(40, 400)),
